@@ -103,7 +103,7 @@ def consume_section(scanner: Scanner, prefix: list, suffix: list, allow_unclosed
 
 
 def name_start_char(ch: str):
-    # Limited XML spec: https://www.w3.org/TR/xml/#NT-NameStartChar
+    # XML spec: https://www.w3.org/TR/xml/#NT-NameStartChar
     o = ord(ch) if ch else 0
     return is_alpha(ch) or \
         ch == Chars.Colon or \
@@ -112,19 +112,27 @@ def name_start_char(ch: str):
         0xD8  <= o <= 0xF6  or \
         0xF8  <= o <= 0x2FF or \
         0x370 <= o <= 0x37D or \
-        0x37F <= o <= 0x1FFF
+        0x37F <= o <= 0x1FFF or \
+        0x200C <= o <= 0x200D or \
+        0x2070 <= o <= 0x218F or \
+        0x2C00 <= o <= 0x2FEF or \
+        0x3001 <= o <= 0xD7FF or \
+        0xF900 <= o <= 0xFDCF or \
+        0xFDF0 <= o <= 0xFFFD or \
+        0x10000 <= o <= 0xEFFFF
 
 
 def name_char(ch: str):
     "Check if given character can be used in a tag or attribute name"
-    # Limited XML spec: https://www.w3.org/TR/xml/#NT-NameChar
+    # XML spec: https://www.w3.org/TR/xml/#NT-NameChar
     o = ord(ch) if ch else 0
     return name_start_char(ch) or \
         ch == Chars.Dash or \
         ch == Chars.Dot or \
         is_number(ch) or \
         o == 0xB7 or \
-        0x0300 <= o <= 0x036F
+        0x0300 <= o <= 0x036F or \
+        0x203F <= o <= 0x2040
 
 
 def ident(scanner: Scanner):
